@@ -1,7 +1,7 @@
 (* C09 — flattened(), update() and add_bundle() conserve records.
    Statements only; proofs in theories/WorldProofs.v, InterpProofs.v. *)
 From Coq Require Import String List Arith.
-From Prov Require Import Str Sexp Tables Nsm NsmProofs Values Record RecordProofs World Interp WorldProofs InterpProofs.
+From Prov Require Import Str Sexp Tables Nsm NsmProofs Values Record RecordProofs World Interp WorldProofs InterpProofs IdemProofs ReaddProofs.
 Import ListNotations.
 Open Scope string_scope.
 
@@ -51,6 +51,24 @@ Proof. exact add_bundle_refuses_nested. Qed.
 Theorem C09_add_bundle_refuses_missing_id : forall w d src order,
   snd (step w (OAddBundleDoc d src None order)) <> RUnit.
 Proof. exact add_bundle_refuses_missing_id. Qed.
+
+(* attribute conservation of the re-creation step: the copy holds the images (same Python kind, lexical form,
+   language; names and datatypes keep their URI under any clash in the target) of the values the source record
+   hands over — its formal arguments and its other attributes — and nothing else *)
+Theorem C09_add_record_attributes : forall par ft b r0 b' r,
+  InvU (bns b) -> (forall p, In p (record_pairs r0) -> good_pair ft p) ->
+  add_record par ft b r0 = (b', OK r) ->
+  (forall x v', In v' (attr_get x (rattrs r)) ->
+     exists p, In p (record_pairs r0) /\ qn_eqb x (fst p) = true /\ same_value (snd p) v') /\
+  (forall p, In p (record_pairs r0) ->
+     exists v2 w, same_value (snd p) v2 /\ In w (attr_get (fst p) (rattrs r)) /\
+                  (w = v2 \/ set_same v2 w = true \/ py_eq v2 w = true)).
+Proof. exact add_record_conserves. Qed.
+Print Assumptions C09_add_record_attributes.
+(* and what is handed over are values the source record holds under those names *)
+Theorem C09_record_pairs_held : forall r p, In p (record_pairs r) ->
+  In (snd p) (attr_get (fst p) (rattrs r)) \/ exists k vs, In (k, vs) (rattrs r) /\ fst p = k /\ In (snd p) vs.
+Proof. exact record_pairs_held. Qed.
 
 (* full statement not yet proved: the re-created record carries the same attribute
    name URIs and the same strict values (needs idempotence of normalisation on
